@@ -1,0 +1,116 @@
+//! Verification shim, only compiled with `--cfg hannibal_verif`.
+//!
+//! Lets a test harness run the unmodified actor loops, timers and handler timeouts on an
+//! executor and clock of its own, and observe the one internal event that has no user-side
+//! witness (a payload leaving the mailbox). With no backend installed every facade forwards
+//! to the real runtime.
+use std::{cell::RefCell, future::Future, pin::Pin, rc::Rc, time::Duration};
+
+pub type BoxFut = Pin<Box<dyn Future<Output = ()> + Send + 'static>>;
+
+pub trait Backend {
+    fn spawn(&self, fut: BoxFut);
+    fn sleep(&self, d: Duration) -> BoxFut;
+    /// a payload (`"task"`, `"stop"`, `"restart"`) or `"none"` left the mailbox of context `ctx`
+    fn dequeued(&self, _ctx: u64, _kind: &'static str) {}
+}
+
+thread_local! { static BACKEND: RefCell<Option<Rc<dyn Backend>>> = const { RefCell::new(None) }; }
+
+pub fn install(b: Option<Rc<dyn Backend>>) {
+    BACKEND.with(|c| *c.borrow_mut() = b);
+}
+fn backend() -> Option<Rc<dyn Backend>> {
+    BACKEND.with(|c| c.borrow().clone())
+}
+
+pub fn ctx_id<A>(ctx: &crate::Context<A>) -> u64 {
+    ctx.id.raw()
+}
+pub fn addr_id<A>(addr: &crate::Addr<A>) -> u64 {
+    addr.context_id.raw()
+}
+pub async fn registry_clear() {
+    crate::actor::service::verif_registry_clear().await
+}
+pub(crate) fn dequeued<A>(ctx: crate::context::ContextID, payload: Option<&crate::environment::Payload<A>>) {
+    use crate::environment::Payload;
+    if let Some(b) = backend() {
+        let kind = match payload {
+            Some(Payload::Task(_)) => "task",
+            Some(Payload::Stop) => "stop",
+            Some(Payload::Restart) => "restart",
+            None => "none",
+        };
+        b.dequeued(ctx.raw(), kind);
+    }
+}
+
+pub mod tokio {
+    pub use super::spawn;
+    pub mod task {
+        pub use super::super::JoinHandle;
+    }
+    pub mod time {
+        pub use super::super::sleep;
+    }
+}
+pub mod futures_timer {
+    pub use super::Delay;
+}
+
+pub enum JoinHandle<T> {
+    Real(::tokio::task::JoinHandle<T>),
+    Shim(futures::channel::oneshot::Receiver<T>),
+}
+#[derive(Debug)]
+pub struct JoinError;
+impl<T> Future for JoinHandle<T> {
+    type Output = Result<T, JoinError>;
+    fn poll(
+        self: Pin<&mut Self>,
+        cx: &mut std::task::Context<'_>,
+    ) -> std::task::Poll<Self::Output> {
+        match self.get_mut() {
+            JoinHandle::Real(h) => Pin::new(h).poll(cx).map(|r| r.map_err(|_| JoinError)),
+            JoinHandle::Shim(r) => Pin::new(r).poll(cx).map(|r| r.map_err(|_| JoinError)),
+        }
+    }
+}
+pub fn spawn<F>(future: F) -> JoinHandle<F::Output>
+where
+    F: Future + Send + 'static,
+    F::Output: Send + 'static,
+{
+    match backend() {
+        None => JoinHandle::Real(::tokio::spawn(future)),
+        Some(b) => {
+            let (tx, rx) = futures::channel::oneshot::channel();
+            b.spawn(Box::pin(async move {
+                let _ = tx.send(future.await);
+            }));
+            JoinHandle::Shim(rx)
+        }
+    }
+}
+pub fn sleep(d: Duration) -> BoxFut {
+    match backend() {
+        None => Box::pin(::tokio::time::sleep(d)),
+        Some(b) => b.sleep(d),
+    }
+}
+pub struct Delay(BoxFut);
+impl Delay {
+    pub fn new(d: Duration) -> Self {
+        match backend() {
+            None => Delay(Box::pin(async move { ::futures_timer::Delay::new(d).await })),
+            Some(b) => Delay(b.sleep(d)),
+        }
+    }
+}
+impl Future for Delay {
+    type Output = ();
+    fn poll(mut self: Pin<&mut Self>, cx: &mut std::task::Context<'_>) -> std::task::Poll<()> {
+        self.0.as_mut().poll(cx)
+    }
+}
